@@ -14,13 +14,15 @@ LEVEL = "exploration"
 WORKERS = {"quick": 8, "thorough": 16}
 BUDGET = {"quick": 60, "thorough": 400}
 MIN_NONTRIVIAL = {"quick": 4000, "thorough": 100000}
-REQUIRED_HOOKS = ["IntType.__add__", "IntType.__truediv__", "IntType.__mod__", "IntType.__neg__", "UintType.__sub__", "UintType.__neg__", "DoubleType.__truediv__", "evaluate:I", "evaluate:C", "direct"]
+REQUIRED_HOOKS = ["compound", "IntType.__add__", "IntType.__truediv__", "IntType.__mod__", "IntType.__neg__", "UintType.__sub__", "UintType.__neg__", "DoubleType.__truediv__", "evaluate:I", "evaluate:C", "direct"]
 RULE = (
     "Operand pairs from a boundary x boundary grid (MIN, MAX, 0, +-1, 2^k, 2^k+-1 ...; doubles +-0, subnormal, 2^53, +-max, +-inf) plus seeded random pairs, "
     "for + - * / % and unary minus, through (i) direct calls of the celtypes operators, (ii) reflected calls with a plain int/float left operand, "
     "(iii) parsed expressions with literal operands and (iv) with bound variables, under both runners, while recording wrappers on the "
     "IntType/UintType/DoubleType dunder methods check every operator call the engines make. Oracle: exact integer arithmetic with range check; "
-    "doubles via exact rational arithmetic rounded to binary64 plus an IEEE special-case table. distinct_nontrivial = distinct (type, op, a, b) whose exact "
+    "doubles via exact rational arithmetic rounded to binary64 plus an IEEE special-case table. (v) compound expressions: random trees (depth <= 3, thorough 4) of "
+    "+ - * / % and unary minus in its three spellings (-(e), - e, -e; nested negations included) over three bound variables and literals of one numeric type, "
+    "both runners; every application in the tree is judged by the same oracle and the outcome is an error as soon as one application is. distinct_nontrivial = distinct (type, op, a, b) whose exact "
     "result is an error, lies within 2 of a range bound, or has a zero/negative/non-finite operand."
 )
 ASSUMPTIONS = [
@@ -400,6 +402,205 @@ def spell(t, v, rnd):
     return MV.double_lit(v)
 
 
+# ---------------------------------------------------------------- compound expressions
+# Trees of arithmetic operators over same-type operands (bound variables and literals at boundary
+# values): the statement is about every operator application the engines make, also the ones
+# nested inside a larger expression (a transpiler that rewrites -(-x) to x, folds constants or
+# reassociates would be exact on every single-operator program).  Every application in the tree is
+# judged by the same oracle; the outcome is an error as soon as one application is.
+NEG_FORMS = ("-({})", "- {}", "-{}")
+
+
+def gen_tree(rnd, t, depth, nvars):
+    r = rnd.random()
+    if depth <= 0 or r < 0.22:
+        if rnd.random() < 0.7:
+            return ("var", rnd.randrange(nvars))
+        return ("lit", pick_value(rnd, t, small=rnd.random() < 0.5))
+    if r < 0.5:
+        return ("neg", gen_tree(rnd, t, depth - 1, nvars))
+    ops = ["+", "-", "*", "/"] + ([] if t == "double" else ["%"])
+    return ("bin", rnd.choice(ops), gen_tree(rnd, t, depth - 1, nvars), gen_tree(rnd, t, depth - 1, nvars))
+
+
+def pick_value(rnd, t, small=False):
+    if t == "int":
+        if small:
+            return rnd.choice([-3, -2, -1, 0, 1, 2, 3, 7])
+        return rnd.choice(MV._INT_B) if rnd.random() < 0.6 else MV.rand_int(rnd)
+    if t == "uint":
+        if small:
+            return rnd.choice([0, 1, 2, 3, 7])
+        return rnd.choice(MV._UINT_B) if rnd.random() < 0.6 else MV.rand_uint(rnd)
+    if small:
+        return rnd.choice([-2.0, -1.0, -0.0, 0.0, 0.5, 1.0, 3.0])
+    return rnd.choice(MV._DBL_B) if rnd.random() < 0.6 else MV.rand_double(rnd)
+
+
+def tree_text(tree, t, rnd):
+    k = tree[0]
+    if k == "var":
+        return "xyz"[tree[1]]
+    if k == "lit":
+        v = tree[1]
+        if t == "double":
+            if v != v or v in (math.inf, -math.inf):
+                raise ValueError("no literal")
+            s = MV.double_lit(v)
+        elif t == "uint":
+            s = str(v) + "u"
+        else:
+            s = str(v)
+        return "(" + s + ")" if s.startswith("-") else s
+    if k == "neg":
+        inner = tree_text(tree[1], t, rnd)
+        form = rnd.choice(NEG_FORMS)
+        if tree[1][0] == "bin" or (form == "-{}" and tree[1][0] == "lit"):
+            form = "-({})"  # '-5' would be a literal, '-a + b' would negate a only
+        return form.format(inner)
+    a, b = tree_text(tree[2], t, rnd), tree_text(tree[3], t, rnd)
+    if tree[2][0] == "bin":
+        a = "(" + a + ")"
+    if tree[3][0] == "bin" or tree[3][0] == "neg":
+        b = "(" + b + ")"
+    return f"{a} {tree[1]} {b}"
+
+
+def tree_eval(tree, t, env):
+    """Exact outcome: number, or raises Err at the first failing application (post-order)."""
+    k = tree[0]
+    if k == "var":
+        return env[tree[1]]
+    if k == "lit":
+        return tree[1]
+    if k == "neg":
+        a = tree_eval(tree[1], t, env)
+        e = expected(t, "neg", a, None)
+    else:
+        a = tree_eval(tree[2], t, env)
+        b = tree_eval(tree[3], t, env)
+        if t == "double" and tree[1] == "%":
+            raise ValueError("unasserted")
+        e = expected(t, tree[1], a, b)
+    if e[0] == "E":
+        raise Err()
+    return e[1]
+
+
+def skeleton(tree):
+    k = tree[0]
+    if k in ("var", "lit"):
+        return k
+    if k == "neg":
+        return "neg(" + skeleton(tree[1]) + ")"
+    return f"({skeleton(tree[2])}{tree[1]}{skeleton(tree[3])})"
+
+
+def subtrees(tree):
+    if tree[0] == "neg":
+        yield from subtrees(tree[1])
+    elif tree[0] == "bin":
+        yield from subtrees(tree[2])
+        yield from subtrees(tree[3])
+    yield tree
+
+
+def observe_tree(runner, tree, t, env, rnd):
+    src = tree_text(tree, t, rnd)
+    bind = {"xyz"[i]: mk(t, v) for i, v in enumerate(env)}
+    o = core.api_eval(runner, src, bind, raw=True)
+    try:
+        exp = ("V", tree_eval(tree, t, env))
+    except Err:
+        exp = ("E",)
+    if o[0] == "V":
+        v = o[-1]
+        ok = exp[0] == "V" and not isinstance(v, bool) and isinstance(v, (int, float)) and same_num(t, v, exp[1])
+        shown = repr(v)
+        oc = "value"
+    elif o[0] == "E":
+        ok = exp[0] == "E"
+        shown = "evaluation error"
+        oc = "error"
+    else:
+        ok = False
+        shown = core.jkey(o[:4])
+        oc = "X:" + str(o[2] if o[0] == "X" else "parse")
+    return ok, src, shown, oc, exp
+
+
+def compound(ctx, acc, mon, n):
+    rnd = ctx.rnd
+    mon.path = "compound"
+    for i in range(n):
+        if ctx.expired():
+            break
+        t = rnd.choice(["int", "int", "uint", "double"])
+        depth = rnd.choice([1, 2, 2, 3]) if not ctx.thorough else rnd.choice([1, 2, 3, 3, 4])
+        tree = gen_tree(rnd, t, depth, 3)
+        if tree[0] in ("var", "lit"):
+            continue
+        env = [pick_value(rnd, t, small=rnd.random() < 0.3) for _ in range(3)]
+        try:
+            try:
+                exp = ("V", tree_eval(tree, t, env))
+            except Err:
+                exp = ("E",)
+            tree_text(tree, t, rnd)
+        except ValueError:
+            continue
+        sk = skeleton(tree)
+        for runner in "IC":
+            ok, src, shown, oc, _ = observe_tree(runner, tree, t, env, rnd)
+            acc.hook("evaluate:" + runner)
+            acc.hook("compound")
+            acc.evaluations += 1
+            acc.cell(t, "compound", "depth" + str(depth), runner, exp[0])
+            if not ok:
+                # localise: the first sub-tree (post-order) whose own evaluation disagrees
+                culprit = tree
+                for sub in subtrees(tree):
+                    if sub[0] in ("var", "lit"):
+                        continue
+                    try:
+                        ok2 = observe_tree(runner, sub, t, env, rnd)[0]
+                    except ValueError:
+                        continue
+                    if not ok2:
+                        culprit = sub
+                        break
+                acc.violation(
+                    f"{t} compound {skeleton(culprit)} {'I' if runner == 'I' else 'C'} obs={oc} exp={'error' if exp[0] == 'E' else 'value'}",
+                    f"[compound:{runner}] {t}: {src!r} with x,y,z={[enc(t, v) for v in env]} gave {shown}, expected {'evaluation error' if exp[0] == 'E' else repr(exp[1])} (minimal failing sub-expression shape {skeleton(culprit)})",
+                    {"compound": True, "t": t, "tree": tree_enc(tree, t), "env": [enc(t, v) for v in env], "runner": runner},
+                )
+        if exp[0] == "E" or "neg(neg" in sk or depth >= 2:
+            acc.nt([t, sk, [enc(t, v) for v in env], tree_enc(tree, t)])
+        if i % 701 == 0:
+            acc.sample({"type": t, "expression": tree_text(tree, t, rnd), "x,y,z": [enc(t, v) for v in env], "expected": exp[0]})
+    mon.path = "?"
+
+
+def tree_enc(tree, t):
+    if tree[0] == "var":
+        return ["var", tree[1]]
+    if tree[0] == "lit":
+        return ["lit", enc(t, tree[1])]
+    if tree[0] == "neg":
+        return ["neg", tree_enc(tree[1], t)]
+    return ["bin", tree[1], tree_enc(tree[2], t), tree_enc(tree[3], t)]
+
+
+def tree_dec(j, t):
+    if j[0] == "var":
+        return ("var", j[1])
+    if j[0] == "lit":
+        return ("lit", dec(t, j[1]))
+    if j[0] == "neg":
+        return ("neg", tree_dec(j[1], t))
+    return ("bin", j[1], tree_dec(j[2], t), tree_dec(j[3], t))
+
+
 def cases(ctx):
     """Yield (t, op, a, b) -- boundary grid partitioned over workers, then random pairs."""
     rnd = ctx.rnd
@@ -443,6 +644,7 @@ def run(ctx):
     core.celpy()
     mon = Monitor(acc)
     mon.install()
+    compound(ctx, acc, mon, ctx.scale(16000, 400000))
     k = 0
     expr_every_grid = 9 if not ctx.thorough else 3
     for t, op, a, b, grid in cases(ctx):
@@ -475,11 +677,18 @@ def replay(case):
     acc = core.Acc()
     mon = Monitor(acc)
     mon.install()
-    t, op = case["t"], case["op"]
-    a, b = dec(t, case["a"]), dec(t, case["b"])
     import random
 
     rnd = random.Random(0)
+    if case.get("compound"):
+        t = case["t"]
+        tree = tree_dec(case["tree"], t)
+        env = [dec(t, v) for v in case["env"]]
+        ok, src, shown, oc, exp = observe_tree(case["runner"], tree, t, env, rnd)
+        hooks.remove_all()
+        return ok, f"{t}: {src!r} with x,y,z={env!r} gave {shown}; expected {exp}"
+    t, op = case["t"], case["op"]
+    a, b = dec(t, case["a"]), dec(t, case["b"])
     direct(acc, t, op, a, b)
     reflected(acc, t, op, a, b)
     fin = t != "double" or all(v is None or (v == v and v not in (math.inf, -math.inf)) for v in (a, b))
